@@ -29,6 +29,10 @@ def run(run, model):
     run.do(_msg.eager_render, model)
     run.do(rec.comprehension_env, model)
     run.do(msg.args_listed, model, "C06.args-listed")
+    # "every representable value is listed": what the filter leaves out is exactly the documented kinds, and the
+    # placeholders are hidden only in a copy, only when the condition does not name them
+    run.do(msg.filter_rule, model, "C06.filter")
+    run.do(msg.hide_placeholders, model, "C06.mapping-untouched")
     run.do(msg.a_repr_rule, model, "C06.a-repr")
     from . import fwd
     run.do(fwd.forwarding, model, "C06.configured-repr", ("a_repr",))
